@@ -161,9 +161,11 @@ pub fn to_ts_ident(ident: &Ident) -> String {
 /// If the name contains special characters or if its first character
 /// is a number it will be wrapped in quotes.
 pub fn raw_name_to_ts_field(value: String) -> String {
+    // Letters, ASCII digits, `_` and `$`. `char::is_alphanumeric` also accepts characters such as
+    // `²` or `½`, which cannot be part of a TypeScript identifier.
     let valid_chars = value
         .chars()
-        .all(|c| c.is_alphanumeric() || c == '_' || c == '$');
+        .all(|c| c.is_alphabetic() || c.is_ascii_digit() || c == '_' || c == '$');
 
     let does_not_start_with_digit = value
         .chars()
